@@ -228,7 +228,9 @@ func genC20(c *Ctx) {
 		"sue:example.org", "user_one", "id=5", " spaced", "=", "user_id = x", "d"}
 	durs := []string{"0", "30", "120", "3600", "-1", "-100", "86400",
 		// beyond what a time.Duration in nanoseconds can hold (about 292 years)
-		"9223372037", "-9223372037", "10000000000", "-10000000000", "4000000000000"}
+		"9223372037", "-9223372037", "10000000000", "-10000000000", "4000000000000",
+		// expiry instants at the low end of int64 (the sum with the clock stays inside int64)
+		"-9223372036854775808", "-9223372036854775807", "-4611686018427387904"}
 	pick := func(l []string) string { return l[c.Rng.Intn(len(l))] }
 
 	// 1. issue: id + caveats must be exactly what the model mints
@@ -292,6 +294,15 @@ func genC20(c *Ctx) {
 		"gen = 1", "user_id = @alice:example.org", "time < @+3600",
 		"user_id = @bob:example.org", "gen = 2", "gen = 1 ", "gen = 10", "time < abc", "time < ", "time < +99999999999", "time < -5",
 		"time < 99999999999999999999", "user_id = ", "user_id =@alice:example.org", "time <5", "unknown", "", "time < 1e9", "time < 0x7fffffff"}
+	// expiry caveats at the ends of int64: a difference (expiry - now) or a sum wraps there
+	for _, tv := range []string{"-9223372036854775808", "-9223372036854775807", "-9223372036854775000", "-4611686018427387904", "-1", "0", "1",
+		"4611686018427387904", "9223372036854775806", "9223372036854775807"} {
+		for _, id := range []string{"@alice:example.org", "@bob:example.org"} {
+			args := Args("aSecretKey", id, "aSecretKey", "@alice:example.org", "", "gen = 1", "user_id = "+id, "time < "+tv)
+			c.Run("C20.validate_minted", args, "C20.validate_minted", "C20.prop.validate_minted", "minted with extreme expiry "+tv)
+			c.Count("validate_minted/extreme-expiry")
+		}
+	}
 	n = c.Scale(400, 6000)
 	for i := 0; i < n; i++ {
 		var cavs []string
